@@ -200,6 +200,7 @@ func (p *StreamPool) connections() []*connection {
 		conns = append(conns, conn)
 	}
 	p.mu.RUnlock()
+	conns = verifOrderConns(conns)
 	return conns
 }
 
@@ -241,6 +242,7 @@ func (a *Assembler) FlushWithOptions(opt FlushOptions) (flushed, closed int) {
 	flushes := 0
 	for _, conn := range conns {
 		flushed := false
+		verifBeforeLock(&conn.mu)
 		conn.mu.Lock()
 		if conn.closed {
 			// Already closed connection, nothing to do here.
@@ -280,6 +282,7 @@ func (a *Assembler) FlushAll() (closed int) {
 	conns := a.connPool.connections()
 	closed = len(conns)
 	for _, conn := range conns {
+		verifBeforeLock(&conn.mu)
 		conn.mu.Lock()
 		for !conn.closed {
 			a.skipFlush(conn)
@@ -503,6 +506,7 @@ func (p *StreamPool) getConnection(k key, end bool, ts time.Time) *connection {
 		return conn
 	}
 	s := p.factory.New(k[0], k[1])
+	verifYield("getConnection:before-insert")
 	p.mu.Lock()
 	conn = p.newConnection(k, s, ts)
 	if conn2 := p.conns[k]; conn2 != nil {
@@ -558,6 +562,7 @@ func (a *Assembler) AssembleWithTimestamp(netFlow gopacket.Flow, t *layers.TCP, 
 			}
 			return
 		}
+		verifBeforeLock(&conn.mu)
 		conn.mu.Lock()
 		if !conn.closed {
 			break
